@@ -98,8 +98,33 @@ func verifH_C03_depth_guard() {
 	}
 }
 
+// verifH_C03_type_depth_guard: the same inductive step for type expressions ([]T, *T, map[K]V nest through getType).
+func verifH_C03_type_depth_guard() {
+	d := int(verifInt32("d"))
+	verifAssume(d >= 0)
+	srcs := []string{"[]int", "*int", "map[string][]int", "[][]*T"}
+	src := srcs[verifChoice("form", len(srcs))]
+	toks, err := tokenize("main.go", src)
+	if err != nil {
+		verifAssert(false, "C03/type-depth-guard/tokenize")
+		return
+	}
+	p := &parser{Tokens: toks, Depth: d}
+	p.Next()
+	refused := verifCatch(func() { getType(p) })
+	if !refused {
+		verifAssert(p.Depth == d, "C03/type-depth-guard/counter-restored")
+	}
+	if d >= verifCfg("c03_depth_bound", 4000000) {
+		verifAssert(refused, "C03/type-depth-guard/recursion-refused-beyond-the-bound")
+	} else if d < 1000 {
+		verifAssert(!refused, "C03/type-depth-guard/ordinary-nesting-accepted")
+	}
+}
+
 func init() {
 	verifHarnesses["verifH_C03_depth_guard"] = verifH_C03_depth_guard
+	verifHarnesses["verifH_C03_type_depth_guard"] = verifH_C03_type_depth_guard
 }
 
 // verifH_C03_trees: Load / Eval over in-memory trees with awkward directory contents; the entry point must return
